@@ -33,6 +33,7 @@ func TestC15(t *testing.T) {
 	}
 	r.Parallel(t, "contract-general", r.Cfg.pick(500, 15000), contract(prioGen{Vers: allVers, Dividers: allDividers, Mode: "general"}))
 	r.Parallel(t, "contract-v1-add-remove", r.Cfg.pick(300, 8000), contract(prioGen{Vers: []string{"v1"}, Dividers: allDividers, Mode: "addrm"}))
+	r.Parallel(t, "contract-v1-priority-without-share", r.Cfg.pick(300, 6000), contract(prioGen{Vers: []string{"v1", "v1", "v1s"}, Dividers: allDividers, Mode: "general", Starve: true}))
 
 	// (2) fault enumeration
 	kinds := []string{"plus1", "double", "minus1"}
